@@ -741,6 +741,31 @@ impl Interpreter {
         self.call_stack.len() + vm_depth
     }
 
+    /// Verification hook (H4): read-only ledger of the interpreter's run state, cheap scalars only.
+    /// [env_is_global, env_guards, call_stack, active_vm, trampoline_depth, pending_orders, cancelled_orders,
+    ///  order_responses, suspended_for_order, waiting_contexts, promise_ids, exports, pending_program,
+    ///  pending_module_sources, loaded_modules]
+    #[cfg(tsrun_verif)]
+    pub fn verif_ledger(&self) -> [usize; 15] {
+        [
+            (self.env == self.global_env) as usize,
+            self.env_guards.len(),
+            self.call_stack.len(),
+            self.active_vm.is_some() as usize,
+            self.active_vm.as_ref().map(|vm| vm.trampoline_depth()).unwrap_or(0),
+            self.pending_orders.len(),
+            self.cancelled_orders.len(),
+            self.order_responses.len(),
+            self.suspended_for_order.is_some() as usize,
+            self.wait_graph.contexts.len(),
+            self.promise_ids.len(),
+            self.exports.len(),
+            self.pending_program.is_some() as usize,
+            self.pending_module_sources.len(),
+            self.loaded_modules.len(),
+        ]
+    }
+
     /// Set the GC threshold (0 = disable automatic collection)
     ///
     /// Lower values reduce peak memory but increase GC overhead.
